@@ -1684,7 +1684,7 @@ func r13WindingOrder(c *core.Ctx) {
 			users += len(core.CallsIn(f.Pkg.TypesInfo, f.Decl, "snap.windingOrderIsCorrect"))
 			others += len(core.CallsIn(f.Pkg.TypesInfo, f.Decl, "github.com/go-spatial/geom/winding.Order.OfPoints", "github.com/go-spatial/geom/winding.Order.OfGeomPoints", "github.com/go-spatial/geom/winding.Orient"))
 		}
-		c.Check(R, "orientation-predicate-shared/snap", w.Decl.Pos(), users >= 3 && others == 0, fmt.Sprintf("%d uses of windingOrderIsCorrect in package snap (normalisation and split classification), no other orientation test", users), fmt.Sprintf("normalisation and split classification no longer share one orientation predicate (%d uses of windingOrderIsCorrect, %d other orientation tests)", users, others))
+		c.Check(R, "orientation-predicate-shared/snap", w.Decl.Pos(), users >= 2 && others == 0, fmt.Sprintf("%d uses of windingOrderIsCorrect in package snap (normalisation and split classification), no other orientation test", users), fmt.Sprintf("normalisation and split classification no longer share one orientation predicate (%d uses of windingOrderIsCorrect, %d other orientation tests)", users, others))
 	}
 	// splitRing never hands the ring on as it came in: every ring it returns is assembled from the visited vertices
 	// and classified by its orientation
@@ -1719,6 +1719,7 @@ func r13WindingOrder(c *core.Ctx) {
 		}
 		c.Check(R, "unsplit-ring-is-never-passed-on/"+sr.Name, sr.Decl.Pos(), bad == "", "the ring parameter is only read (indexed, appended from); returned rings are rebuilt and classified", "splitRing returns or stores the ring as it came in (at "+bad+"), bypassing the classification by orientation: a ring that was turned around by snapping keeps the wrong role/orientation")
 	}
+	r13SplitClassification(c)
 	// an inner ring that becomes the shell of a polygon of its own is turned around first
 	if mf := c.Anchor(R, "snap.matchInnersToPolygons"); mf != nil {
 		r13TurnedOuter(c, mf)
@@ -2077,4 +2078,197 @@ func r06RoutedPointsKept(c *core.Ctx) {
 		}
 	}
 	c.Check(R, construct, first.Pos(), okHigh && okFirst, "in[:len-min(len-1,1)], then the first point only if it repeats the last one added", "cleanupNewVertices can return nothing for a segment that was routed: "+why)
+}
+
+
+// r13SplitClassification: the loop that sorts the completed rings of a split into outer rings, inner rings and
+// points-and-lines, as a decision table over (ring has fewer than 3 vertices, the ring was a shell, the orientation
+// predicate asked for counter-clockwise, the predicate asked for clockwise): short -> points and lines; a shell's
+// piece is an outer ring iff it is counter-clockwise, a hole's piece an inner ring iff it is clockwise.  Lives in
+// splitRing or in a helper of package snap it calls; which accumulator is which is taken from the names of the
+// results (outerRings, innerRings, pointsAndLines), as go/ssa keeps them on the loop's phis.
+func r13SplitClassification(c *core.Ctx) {
+	const R = "R13"
+	sr := c.P.Funcs["snap.splitRing"]
+	if sr == nil || sr.SSA == nil {
+		return
+	}
+	construct := "split-pieces-classified-by-orientation/snap.splitRing"
+	// candidate functions: splitRing and its static callees in package snap
+	cands := []*ssa.Function{sr.SSA}
+	for _, b := range sr.SSA.Blocks {
+		for _, in := range b.Instrs {
+			if call, ok := in.(*ssa.Call); ok {
+				if g := call.Call.StaticCallee(); g != nil && len(g.Blocks) > 0 && core.ShortPkg(core.FuncPkgPath(g)) == "snap" {
+					cands = append(cands, g)
+				}
+			}
+		}
+	}
+	var fn *ssa.Function
+	var header *ssa.BasicBlock
+	for _, g := range cands {
+		for _, b := range g.Blocks {
+			i := core.BlockIf(b)
+			if i == nil || len(b.Succs) != 2 {
+				continue
+			}
+			// a loop header whose body region calls windingOrderIsCorrect
+			hasPhi := false
+			for _, in := range b.Instrs {
+				if _, ok := in.(*ssa.Phi); ok {
+					hasPhi = true
+				}
+			}
+			if !hasPhi {
+				continue
+			}
+			calls := false
+			for _, bb := range g.Blocks {
+				if !b.Succs[0].Dominates(bb) {
+					continue
+				}
+				for _, in := range bb.Instrs {
+					if call, ok := in.(*ssa.Call); ok && call.Call.StaticCallee() != nil && call.Call.StaticCallee().Name() == "windingOrderIsCorrect" {
+						calls = true
+					}
+				}
+			}
+			if calls && header == nil {
+				fn, header = g, b
+			}
+		}
+	}
+	if header == nil {
+		c.Unknown(R, construct, sr.Decl.Pos(), "no loop that classifies the completed rings with windingOrderIsCorrect found in splitRing or the helpers it calls")
+		return
+	}
+	acc := map[string]*ssa.Phi{}
+	for _, in := range header.Instrs {
+		if ph, ok := in.(*ssa.Phi); ok {
+			switch ph.Comment {
+			case "outerRings", "innerRings", "pointsAndLines":
+				acc[ph.Comment] = ph
+			}
+		}
+	}
+	if len(acc) != 3 {
+		c.Unknown(R, construct, sr.Decl.Pos(), "the three accumulators outerRings / innerRings / pointsAndLines are not recognisable in the classification loop (results renamed?)")
+		return
+	}
+	var isOuter ssa.Value
+	for _, prm := range fn.Params {
+		if isBoolType(prm.Type()) {
+			isOuter = prm
+		}
+	}
+	atom := func(fr *boolFrame, v ssa.Value) (string, bool, bool) {
+		if isOuter != nil && v == isOuter {
+			return "O", false, true
+		}
+		switch x := v.(type) {
+		case *ssa.BinOp:
+			if x.Op == token.LSS && isConstInt(x.Y, 3) {
+				if lc, ok := x.X.(*ssa.Call); ok {
+					if _, isLen := isBuiltinCall(lc, "len"); isLen {
+						return "S", false, true
+					}
+				}
+			}
+			if x.Op == token.GEQ && isConstInt(x.Y, 3) {
+				if lc, ok := x.X.(*ssa.Call); ok {
+					if _, isLen := isBuiltinCall(lc, "len"); isLen {
+						return "S", true, true
+					}
+				}
+			}
+		case *ssa.Call:
+			if x.Call.StaticCallee() != nil && x.Call.StaticCallee().Name() == "windingOrderIsCorrect" && len(x.Call.Args) == 2 {
+				// which orientation is asked for: a constant, or an expression over isOuter
+				if k, ok := x.Call.Args[1].(*ssa.Const); ok && k.Value != nil {
+					if constant.BoolVal(k.Value) {
+						return "WT", false, true
+					}
+					return "WF", false, true
+				}
+				if u, ok := x.Call.Args[1].(*ssa.UnOp); ok && u.Op == token.NOT && u.X == isOuter {
+					// !isOuter: clockwise wanted for a hole, counter-clockwise for a shell
+					if fr.env != nil {
+						if ov, known := fr.env[isOuter]; known {
+							if !ov {
+								return "WT", false, true
+							}
+							return "WF", false, true
+						}
+					}
+					return "W!O", false, true
+				}
+			}
+		}
+		return "", false, false
+	}
+	names := []string{"S", "O", "WF", "WT"}
+	for m := 0; m < 1<<len(names); m++ {
+		as := map[string]bool{}
+		for i, n := range names {
+			as[n] = m&(1<<i) != 0
+		}
+		// windingOrderIsCorrect(ring, !isOuter) asks WT for a hole and WF for a shell
+		if as["O"] {
+			as["W!O"] = as["WF"]
+		} else {
+			as["W!O"] = as["WT"]
+		}
+		bi := &boolInterp{roleOf: func(*boolFrame, ssa.Value) string { return "" }, atom: atom, assign: as, used: map[string]bool{}}
+		fr := &boolFrame{fn: fn, roles: map[ssa.Value]string{}, env: map[ssa.Value]bool{}, prev: header}
+		out, err := bi.run(fr, header.Succs[0], map[*ssa.BasicBlock]bool{header: true}, 0)
+		if err != nil {
+			c.Unknown(R, construct, sr.Decl.Pos(), "the classification of a completed ring is not understood: "+err.Error())
+			return
+		}
+		if out.kind != "block" {
+			c.Bad(R, construct, sr.Decl.Pos(), "the classification loop can end early for a ring")
+			return
+		}
+		pi := -1
+		for i, p := range header.Preds {
+			if p == fr.prev {
+				pi = i
+			}
+		}
+		got := ""
+		for name, ph := range acc {
+			if pi >= 0 && ph.Edges[pi] != ssa.Value(ph) {
+				if call, ok := ph.Edges[pi].(*ssa.Call); ok {
+					if _, isApp := isBuiltinCall(call, "append"); isApp && call.Call.Args[0] == ssa.Value(ph) {
+						got += name
+						continue
+					}
+				}
+				got += name + "(?)"
+			}
+		}
+		want := ""
+		switch {
+		case as["S"]:
+			want = "pointsAndLines"
+		case as["O"]:
+			if as["WF"] {
+				want = "outerRings"
+			} else {
+				want = "innerRings"
+			}
+		default:
+			if as["WT"] {
+				want = "innerRings"
+			} else {
+				want = "outerRings"
+			}
+		}
+		if got != want {
+			c.Bad(R, construct, sr.Decl.Pos(), fmt.Sprintf("a completed ring with short=%v, was-a-shell=%v, counter-clockwise-ok=%v, clockwise-ok=%v goes to %q where the rule gives %q: pieces of a split get the wrong role", as["S"], as["O"], as["WF"], as["WT"], got, want))
+			return
+		}
+	}
+	c.OK(R, construct, sr.Decl.Pos(), "decision table of the classification loop agrees with the rule on all 16 valuations (in "+fn.Name()+")")
 }
